@@ -458,7 +458,7 @@ pub fn execute(run: &Run<'_>) -> Observation {
     let mut polls = 0u32;
     let mut need_poll = true;
     let fin;
-    let mut poll_once = |fut: &mut Pin<Box<dyn Future<Output = ()>>>, cx: &mut Context<'_>| {
+    let poll_once = |fut: &mut Pin<Box<dyn Future<Output = ()>>>, cx: &mut Context<'_>| {
         match catch_unwind(AssertUnwindSafe(|| fut.as_mut().poll(cx))) {
             Ok(Poll::Ready(())) => Some(Final::Completed),
             Ok(Poll::Pending) => None,
